@@ -53,6 +53,17 @@ pub fn msg_class(m: &str) -> String {
     out.trim().to_string()
 }
 
+/// keep the source of odd-but-not-violating cases (rejects of generated programs, invalid Go outside C02) for triage;
+/// at most one file per (property, class), under /verif/out/triage (not read by any check)
+pub fn stash(prop: &str, class: &str, label: &str, src: &str) {
+    let dir = util::verif_root().join("out/triage").join(prop);
+    let _ = std::fs::create_dir_all(&dir);
+    let f = dir.join(format!("{:016x}.gom", util::hash_str(class)));
+    if !f.exists() {
+        let _ = std::fs::write(&f, format!("// {} :: {}\n{}", label, class.replace('\n', " "), src));
+    }
+}
+
 pub fn run_diff(case: &mut Case, prog: &Program, label: &str, opts: &DiffOpts) -> Outcome {
     let src = print_program(prog, opts.print);
     run_diff_src(case, prog, &src, label, opts)
@@ -87,6 +98,7 @@ pub fn run_diff_src(case: &mut Case, prog: &Program, src: &str, label: &str, opt
             let msg = capi::err_messages(&e).first().cloned().unwrap_or_default();
             case.count("rejected", 1);
             case.count(&format!("rejected:{}:{}", stage, msg_class(&msg)), 1);
+            stash(opts.prop, &format!("rejected:{}:{}", stage, msg_class(&msg)), label, src);
             return Outcome::Rejected(stage, msg);
         }
         Ok(Ok(go)) => go,
@@ -113,6 +125,7 @@ pub fn run_diff_src(case: &mut Case, prog: &Program, src: &str, label: &str, opt
                 return Outcome::Violation;
             }
             case.count(&format!("invalid_go:{}", kind), 1);
+            stash(opts.prop, &format!("invalid_go:{}:{}", kind, crate::props::c02::line_shape(&go_line)), label, src);
             return Outcome::Inconclusive(format!("emitted Go is invalid ({}): C02's business", kind));
         }
     }
